@@ -87,6 +87,11 @@ func genC15(e *emitter, tier string, seed int64) {
 		{"use-lib2", []scriptSrc{{"a.p", "use(\"b.p\")\np(\"lib\", get_key(from), get_key(more))\n"}, {"b.p", "add_key(from, \"two\")\nadd_key(more, 2)\n"}}, 0},
 		{"grok-code-digits", []scriptSrc{{"a.p", "add_pattern(\"code\", \"\\\\d+\")\ngrok(_, \"%{WORD:w} %{code:c}\")\np(get_key(w), get_key(c))\n"}}, 0},
 		{"grok-code-any", []scriptSrc{{"a.p", "add_pattern(\"code\", \".*\")\ngrok(_, \"%{WORD:w} %{code:c}\")\np(get_key(w), get_key(c))\n"}}, 0},
+		// (round 9) the same grok text inside a block, under definitions made outside the block that differ
+		// from script to script, and in a script that does not define the name at all (refused at load)
+		{"grok-code-block-digits", []scriptSrc{{"a.p", "add_pattern(\"code\", \"\\\\d+\")\nif true {\n  grok(_, \"%{WORD:w} %{code:c}\")\n}\np(get_key(w), get_key(c))\n"}}, 0},
+		{"grok-code-block-letters", []scriptSrc{{"a.p", "add_pattern(\"code\", \"[a-z]+\")\nfor x in [1] {\n  grok(_, \"%{WORD:w} %{code:c}\")\n}\np(get_key(w), get_key(c))\n"}}, 0},
+		{"grok-code-block-undefined", []scriptSrc{{"a.p", "if true {\n  grok(_, \"%{WORD:w} %{code:c}\")\n}\np(get_key(w), get_key(c))\n"}}, 0},
 		{"grok-code-undefined", []scriptSrc{{"a.p", "grok(_, \"%{WORD:w} %{code:c}\")\np(get_key(w), get_key(c))\n"}}, 0},
 		// a zone that cannot be loaded fails the same way every time
 		{"bad-zone", []scriptSrc{{"a.p", "add_key(ts, \"2021-03-15 00:08:10\")\ndefault_time(ts, \"Mars/Phobos\")\np(get_key(ts), get_key(pl_msg))\n"}}, 0},
